@@ -7,6 +7,7 @@ import AmrK.Header
 import AmrK.WritersChef
 import AmrK.Scan
 import AmrK.TasteAll
+import AmrK.Grid
 /-! `amrk-driver`: one JSON object per line in, one JSON object per line out.
     Executable definitions of the model only (no Mathlib behind any import). -/
 open Lean
@@ -100,6 +101,24 @@ def opCellH (j : Json) : Except String Json := do
   | .bad why => return Json.mkObj [("status", "refused"), ("why", toJson why)]
   | .ok es => return Json.mkObj [("status", "ok"),
       ("entries", toJson (es.map fun e => Json.mkObj [("lo", toJson e.lo), ("hi", toJson e.hi), ("file", toJson e.file), ("offset", toJson e.offset)]))]
+
+/-! ### covering grid (mandoline 2D, whip) -/
+def optJ {α} [ToJson α] : Option α → Json
+  | some x => toJson x
+  | none => Json.null
+
+def opCover (j : Json) : Except String Json := do
+  let lv ← (← j.getObjVal? "levels").getArr?
+  let levels ← lv.toList.mapM fun l => do
+    (← l.getArr?).toList.mapM fun b => do
+      let lo ← natList (← b.getObjVal? "lo")
+      let hi ← natList (← b.getObjVal? "hi")
+      let data ← (← (← b.getObjVal? "data").getArr?).toList.mapM (·.getInt?)
+      return ({ lo, hi, data } : Grid.GBox)
+  let L ← (← j.getObjVal? "L").getNat?
+  let shape ← natList (← j.getObjVal? "shape")
+  let res := (Grid.cells shape).map fun p => Grid.coverAt levels L p
+  return Json.mkObj [("vals", toJson (res.map fun r => optJ (r.map (·.1)))), ("lvls", toJson (res.map fun r => optJ (r.map (·.2))))]
 
 /-! ### mandoline column -/
 open Column in
@@ -227,6 +246,7 @@ partial def loop (h : IO.FS.Stream) (out : IO.FS.Stream) (files : Std.HashMap St
         | "scan" => opScan files j
         | "taste" => opTaste j
         | "cellh" => opCellH j
+        | "cover" => opCover j
         | "taste_plt" => opTastePlt files j
         | "column" => opColumn j
         | "pestle" => opPestle j
